@@ -435,7 +435,12 @@ func builtin(r *rep.Report) {
 			if !sharedCtx {
 				reqCtx = drv.Ctx()
 			}
-			if _, err := s.AddRule(reqCtx, loc, "r", rule); err != nil {
+			text := rule
+			if sharedCtx && loc == "B" {
+				// the schedule as a client might write it: blanks around it (the cron service trims them)
+				text = strings.Replace(rule, `"+1s"`, `" +1s "`, 1)
+			}
+			if _, err := s.AddRule(reqCtx, loc, "r", text); err != nil {
 				r.Violate("", "AddRule failed: "+err.Error(), nil)
 			}
 		}
